@@ -13,7 +13,7 @@
    Definitions only. *)
 From Coq Require Import String Ascii.
 From Coq Require Import List Arith Bool ZArith.
-Require Import TT.Model.Str TT.Model.TypeParse TT.Model.Harvest TT.Model.Pipeline TT.Model.Events.
+Require Import TT.Model.Str TT.Model.C07TypeParse TT.Model.C07Harvest TT.Model.Pipeline.
 Require Import TT.Spec.TsLex TT.Spec.TsModule TT.Spec.TsObs TT.Spec.C02Closed.
 Import ListNotations.
 Local Open Scope list_scope.
@@ -58,64 +58,11 @@ Definition chan_msg (t : qty) : option qty :=
 Definition chans (c : cmd) : list (str * qty) :=
   flat_map (fun x => match chan_msg (snd x) with Some m => [(fst x, m)] | None => [] end) (c_params c).
 Definition ret_str (c : cmd) : str := match c_ret c with Some t => qtts t | None => S_ "()" end.
-(* type_resolver.rs find_top_level_comma / split_top_level: commas outside <>, (), [] (signed depth) *)
-Definition opens (c : ascii) : bool := Ascii.eqb c "<"%char || Ascii.eqb c "("%char || Ascii.eqb c "["%char.
-Definition closes (c : ascii) : bool := Ascii.eqb c ">"%char || Ascii.eqb c ")"%char || Ascii.eqb c "]"%char.
-Fixpoint ftc_go (d : Z) (i : nat) (s : str) : option nat :=
-  match s with
-  | [] => None
-  | b :: r => if opens b then ftc_go (d + 1)%Z (S i) r
-              else if closes b then ftc_go (d - 1)%Z (S i) r
-              else if Ascii.eqb b ","%char && (d =? 0)%Z then Some i
-              else ftc_go d (S i) r
-  end.
-Definition ftc (s : str) : option nat := ftc_go 0%Z 0 s.
-Fixpoint split_top_go (fuel : nat) (s : str) : list str :=
-  match fuel with
-  | 0 => [s]
-  | S f => match ftc s with Some i => firstn i s :: split_top_go f (skipn (S i) s) | None => [s] end
-  end.
-Definition split_top (s : str) : list str := split_top_go (S (List.length s)) s.
-
-(* TypeResolver::parse_type_structure after the repair: TypeParse.parse with the three splitting
-   helpers replaced (Result: first top-level comma; maps: first top-level comma; tuples: every
-   top-level comma) *)
-Definition split2_top (inner : str) : option (str * str) :=
-  match ftc inner with Some i => Some (trim (firstn i inner), trim (skipn (S i) inner)) | None => None end.
-Fixpoint parse2 (fuel : nat) (s0 : str) : option tstruct :=
-  match fuel with
-  | 0 => None
-  | S f =>
-    let s := trim s0 in
-    if starts (L "&") s then parse2 f (skipn 1 s) else
-    match wrapped "Option<" s with Some inner => option_map TOpt (parse2 f inner) | None =>
-    match wrapped "Result<" s with
-    | Some inner =>
-        let ok := match ftc inner with Some i => trim (firstn i inner) | None => inner end in
-        option_map TRes (parse2 f ok)
-    | None =>
-    match wrapped "Vec<" s with Some inner => option_map TArr (parse2 f inner) | None =>
-    match (match wrapped "HashMap<" s with
-           | Some inner => split2_top inner
-           | None => None end),
-          (match wrapped "BTreeMap<" s with
-           | Some inner => split2_top inner
-           | None => None end) with
-    | Some (k, v), _ | None, Some (k, v) =>
-        match parse2 f k, parse2 f v with Some k', Some v' => Some (TMap k' v') | _, _ => None end
-    | None, None =>
-    match (match wrapped "HashSet<" s with Some i => Some i | None => wrapped "BTreeSet<" s end) with
-    | Some inner => option_map TSet (parse2 f inner)
-    | None =>
-    if starts (L "(") s && ends_with ")"%char s then
-      let inner := mid 1 1 s in
-      if all_blank inner then Some (TPrim (L "void"))
-      else option_map TTuple (mapM (parse2 f) (map trim (split_top inner)))
-    else match prim_of s with Some p => Some (TPrim p) | None => Some (TCustom s) end
-    end end end end end
-  end.
-Definition parse_type_structure2 (s : str) : option tstruct := parse2 (S (List.length s)) s.
-Definition pts (s : str) : tstruct := match parse_type_structure2 s with Some t => t | None => TCustom s end.
+(* TypeResolver::parse_type_structure and the harvester after the repairs (top-level commas only,
+   one-argument Result harvested) are the models of the C07 worker, imported read-only:
+   Model/C07TypeParse.v (parse, tstruct, rty, tts) and Model/C07Harvest.v (harvest); their
+   faithfulness theorems (Proofs/C07TypeParseProofs.v, C07HarvestProofs.v) are used in Proofs/C02World.v *)
+Definition pts (s : str) : tstruct := match parse_type_structure s with Some t => t | None => TCustom s end.
 Definition has_p (c : cmd) : bool := negb (Nat.eqb (List.length (vparams c)) 0).
 Definition has_c (c : cmd) : bool := negb (Nat.eqb (List.length (chans c)) 0).
 Definition has_pc (c : cmd) : bool := has_p c || has_c c.
@@ -169,49 +116,14 @@ Definition is_enum (p : proj) (n : str) : bool := match info p n with Some (b, _
 Fixpoint grow (step : str -> list str) (n : nat) (seen : list str) : list str :=
   match n with 0 => seen | S k => grow step k (seen ++ filter (fun x => negb (mem x seen)) (dedup (flat_map step seen))) end.
 
-(* analysis/mod.rs extract_type_names_recursive after the repairs: as Harvest.harvest, except that a
-   Result without a comma hands its only argument on, and that Result / map / tuple arms split at
-   top-level commas only *)
-Fixpoint harvest2 (fuel : nat) (s0 : str) : list str :=
-  match fuel with
-  | 0 => []
-  | S f =>
-    let s := trim s0 in
-    if starts (L "Result<") s then
-      match strip_wrapped "Result<" s with
-      | Some inner => match ftc inner with
-                      | Some i => harvest2 f (trim (firstn i inner)) ++ harvest2 f (trim (skipn (S i) inner))
-                      | None => harvest2 f inner
-                      end
-      | None => [] end
-    else if starts (L "Option<") s then
-      match strip_wrapped "Option<" s with Some inner => harvest2 f inner | None => [] end
-    else if starts (L "Vec<") s then
-      match strip_wrapped "Vec<" s with Some inner => harvest2 f inner | None => [] end
-    else if starts (L "HashMap<") s || starts (L "BTreeMap<") s then
-      match (if starts (L "HashMap<") s then strip_wrapped "HashMap<" s else strip_wrapped "BTreeMap<" s) with
-      | Some inner => match ftc inner with
-                      | Some i => harvest2 f (trim (firstn i inner)) ++ harvest2 f (trim (skipn (S i) inner))
-                      | None => [] end
-      | None => [] end
-    else if starts (L "HashSet<") s || starts (L "BTreeSet<") s then
-      match (if starts (L "HashSet<") s then strip_wrapped "HashSet<" s else strip_wrapped "BTreeSet<" s) with
-      | Some inner => harvest2 f inner | None => [] end
-    else if starts (L "(") s && ends_with ")"%char s && negb (str_eqb s (L "()")) then
-      flat_map (fun x => harvest2 f (trim x)) (split_top (mid 1 1 s))
-    else if starts (L "&") s then harvest2 f (strip_amps s)
-    else if custom_name s then [s] else []
-  end.
-Definition extract_type_names2 (s : str) : list str := harvest2 (S (List.length s)) s.
-
 (* analyze_project: harvested names, then resolve_types_lazily *)
 Definition harvest_roots (p : proj) : list str :=
-  flat_map (fun c => flat_map (fun ch => extract_type_names2 (qtts (snd ch))) (chans c) ++
-                     flat_map (fun x => extract_type_names2 (qtts (snd x))) (vparams c) ++
-                     extract_type_names2 (ret_str c)) (cmds p) ++
-  flat_map (fun e => extract_type_names2 (snd e)) (events p).
+  flat_map (fun c => flat_map (fun ch => extract_type_names (qtts (snd ch))) (chans c) ++
+                     flat_map (fun x => extract_type_names (qtts (snd x))) (vparams c) ++
+                     extract_type_names (ret_str c)) (cmds p) ++
+  flat_map (fun e => extract_type_names (snd e)) (events p).
 Definition hdeps (p : proj) (n : str) : list str :=
-  filter (has_info p) (flat_map (fun f => extract_type_names2 (qtts (sf_ty f))) (fields_of p n)).
+  filter (has_info p) (flat_map (fun f => extract_type_names (qtts (sf_ty f))) (fields_of p n)).
 Definition discovered (p : proj) : list str :=
   grow (hdeps p) (List.length (pj_items p)) (dedup (filter (has_info p) (harvest_roots p))).
 
@@ -303,6 +215,19 @@ Section Names.
     | TTuple l => Bare (S_ "z") :: flat_map zn l end.
 End Names.
 
+(* default TypeVisitor on the structure, without mappings (text handed to add_types_prefix) *)
+Fixpoint render7 (t : tstruct) : str :=
+  match t with
+  | TPrim s => s
+  | TArr u | TSet u => render7 u ++ L "[]"
+  | TMap k v => L "Record<" ++ render7 k ++ L ", " ++ render7 v ++ L ">"
+  | TTuple [] => L "void"
+  | TTuple l => L "[" ++ join (L ", ") (map render7 l) ++ L "]"
+  | TOpt u => render7 u ++ L " | null"
+  | TRes u => render7 u
+  | TCustom n => n
+  end.
+
 (* base/templates.rs add_types_prefix on strings, after the repair (Pipeline.atp with the [] branch recursing) *)
 Fixpoint atp2 (fuel : nat) (s : str) : str :=
   match fuel with 0 => s | S f =>
@@ -379,8 +304,10 @@ Definition gen (p : proj) (zod : bool) : files :=
      f_events := if has_events p then Parsed (events_sum p) else Absent; f_index := Parsed (index_sum p) |}.
 
 (* ---------------- where the set-level prediction does not apply: some emitted type is not a type ---------------- *)
-Definition all_site_ts (p : proj) : list tstruct :=
-  flat_map cmd_site_ts (cmds p) ++ flat_map (fun n => map field_ts (fields_of p n)) (used p) ++ map (fun e => pts (snd e)) (events p).
+Definition decl_site_ts (p : proj) : list tstruct :=      (* sites whose names go into declarations and schemas *)
+  flat_map cmd_site_ts (cmds p) ++ flat_map (fun n => map field_ts (fields_of p n)) (used p).
+Definition event_site_ts (p : proj) : list tstruct := map (fun e => pts (snd e)) (events p).
+Definition all_site_ts (p : proj) : list tstruct := decl_site_ts p ++ event_site_ts p.
 Definition prefixed_ts (p : proj) : list tstruct := map ret_ts (cmds p) ++ map (fun e => pts (snd e)) (levents p).
 Definition broken (p : proj) : bool :=
   existsb (garbage (pj_maps p)) (all_site_ts p) ||
@@ -389,12 +316,11 @@ Definition broken (p : proj) : bool :=
 
 (* ---------------- premises ---------------- *)
 (* names of the Rust types a proj mentions: last segments of paths that are not std / tauri heads *)
-Definition std_heads : list str :=
-  map L ["String"; "str"; "i8"; "i16"; "i32"; "i64"; "i128"; "isize"; "u8"; "u16"; "u32"; "u64"; "u128"; "usize"; "f32"; "f64"; "bool";
-         "Option"; "Vec"; "HashMap"; "BTreeMap"; "HashSet"; "BTreeSet"; "Result"].
+Definition container_heads : list string := ["Option"; "Result"; "Vec"; "HashMap"; "BTreeMap"; "HashSet"; "BTreeSet"].
+Definition is_std (n : str) : bool := (match prim_of n with Some _ => true | None => false end) || one_of n container_heads.
 Fixpoint qnames (t : qty) : list str :=
   match t with
-  | QPath _ n _ args => (if mem n std_heads then [] else [n]) ++ flat_map qnames args
+  | QPath _ n _ args => (if is_std n then [] else [n]) ++ flat_map qnames args
   | QRef u => qnames u
   | QTuple l => flat_map qnames l end.
 Definition serde_fields (p : proj) : list sfield :=
@@ -442,7 +368,9 @@ Definition kf_collision (p : proj) (zod : bool) : bool :=
 Definition kf_C02 (p : proj) (zod : bool) : bool :=
   kf_prefix p || kf_event_head p || kf_dup_listener p || kf_collision p zod.
 
-(* every custom name a declaration or a prefixed site mentions is declared (decidable side condition
+(* every custom name a declaration or a prefixed site mentions is declared - for an event payload:
+   or is one of the eight names add_types_prefix leaves alone (the fall-back unknown) - (decidable side condition
    of the model-level theorem; the full statement derives it from closed_world and the classes) *)
 Definition refs_declared (p : proj) : bool :=
-  forallb (fun t => forallb (fun n => mem n (used p)) (customs (pj_maps p) t)) (all_site_ts p).
+  forallb (fun t => forallb (fun n => mem n (used p)) (customs (pj_maps p) t)) (decl_site_ts p) &&
+  forallb (fun t => forallb (fun n => mem n prims8 || mem n (used p)) (customs (pj_maps p) t)) (event_site_ts p).
